@@ -259,7 +259,7 @@ class Register:
         context = context or {}
 
         size = self.size
-        if size is not None and idx >= int(size):
+        if idx < 0 or (size is not None and idx >= int(size)):
             # int() because the size may be given by a let constant
             raise JaqalError("Index out of range.")
         if self.fundamental:
